@@ -16,7 +16,10 @@ import (
 	"strings"
 	"time"
 
+	"sigs.k8s.io/kustomize/api/krusty"
 	"sigs.k8s.io/kustomize/kyaml/filesys"
+	"sigs.k8s.io/kustomize/kyaml/resid"
+	kyaml "sigs.k8s.io/kustomize/kyaml/yaml"
 	"sigs.k8s.io/yaml"
 )
 
@@ -42,6 +45,7 @@ type c10ReplicaEntry struct {
 type c10Tree struct {
 	Res      []c10Res          `json:"res"`
 	Prefix   string            `json:"prefix,omitempty"` // resources live in a base with this namePrefix
+	Suffix   string            `json:"suffix,omitempty"` // ... and / or this nameSuffix
 	Images   []c10Image        `json:"images,omitempty"`
 	Replicas []c10ReplicaEntry `json:"replicas,omitempty"`
 	Repls    []c10Repl         `json:"repls,omitempty"`
@@ -52,9 +56,16 @@ func (t c10Tree) files() map[string]string {
 	files := map[string]string{}
 	resDir := ""
 	var k strings.Builder
-	if t.Prefix != "" {
+	if t.renamed() {
 		resDir = "base/"
-		files["base/kustomization.yaml"] = "resources:\n- r.yaml\nnamePrefix: " + t.Prefix + "\n"
+		bk := "resources:\n- r.yaml\n"
+		if t.Prefix != "" {
+			bk += "namePrefix: " + t.Prefix + "\n"
+		}
+		if t.Suffix != "" {
+			bk += "nameSuffix: " + t.Suffix + "\n"
+		}
+		files["base/kustomization.yaml"] = bk
 		k.WriteString("resources:\n- base\n")
 	} else {
 		k.WriteString("resources:\n- r.yaml\n")
@@ -149,12 +160,15 @@ func c10Deep(v interface{}) interface{} {
 	return out
 }
 
-var c10ClusterKinds = map[string]bool{"Namespace": true, "CustomResourceDefinition": true, "ClusterRole": true}
+// one id of a resource as the oracle sees it
+type c10IdT struct{ group, version, kind, name, ns string }
 
-// independent id view of a resource of the tree
-type c10RId struct {
-	group, version, kind, ns string
-	names                    []string // current name first, then the original one (before the prefix)
+// c10View: a resource for the oracle: expected object, ids (current first, then the previous ones,
+// oldest first), labels and annotations
+type c10View struct {
+	obj           c10Obj
+	ids           []c10IdT
+	labels, annos map[string]string
 }
 
 func c10SplitAV(av string) (string, string) {
@@ -164,47 +178,97 @@ func c10SplitAV(av string) (string, string) {
 	return "", av
 }
 
-func (t c10Tree) rid(r c10Res) c10RId {
-	g, v := c10SplitAV(r.APIVersion)
-	id := c10RId{group: g, version: v, kind: r.Kind, ns: r.Namespace, names: []string{r.Name}}
-	if t.Prefix != "" {
-		id.names = []string{t.Prefix + r.Name, r.Name}
+func c10StrMap(v interface{}) (map[string]string, bool) {
+	out := map[string]string{}
+	if v == nil {
+		return out, true
 	}
-	return id
+	m, ok := v.(map[string]interface{})
+	if !ok {
+		return nil, false
+	}
+	for k, x := range m {
+		s, ok := x.(string)
+		if !ok {
+			return nil, false
+		}
+		out[k] = s
+	}
+	return out, true
 }
 
-func c10EffNs(kind, ns string) string {
-	if c10ClusterKinds[kind] {
-		return "_non_namespaceable_"
+// c10ViewOf reads ids, labels and annotations off an unstructured object (previous ids from the
+// build annotations); ok=false for shapes the oracle does not cover (malformed annotations ...)
+func c10ViewOf(o c10Obj) (*c10View, bool) {
+	v := &c10View{obj: o}
+	g, ver := c10SplitAV(c10Str(o, "apiVersion"))
+	if _, ok := c10Get(o, "metadata").(map[string]interface{}); !ok {
+		return nil, false
 	}
+	for _, f := range []string{"name", "namespace"} {
+		if x := c10Get(o, "metadata", f); x != nil {
+			if _, ok := x.(string); !ok {
+				return nil, false
+			}
+		}
+	}
+	v.ids = []c10IdT{{g, ver, c10Str(o, "kind"), c10Str(o, "metadata", "name"), c10Str(o, "metadata", "namespace")}}
+	var ok bool
+	if v.labels, ok = c10StrMap(c10Get(o, "metadata", "labels")); !ok {
+		return nil, false
+	}
+	if v.annos, ok = c10StrMap(c10Get(o, "metadata", "annotations")); !ok {
+		return nil, false
+	}
+	if names, has := v.annos["internal.config.kubernetes.io/previousNames"]; has {
+		n := strings.Split(names, ",")
+		ns := strings.Split(v.annos["internal.config.kubernetes.io/previousNamespaces"], ",")
+		k := strings.Split(v.annos["internal.config.kubernetes.io/previousKinds"], ",")
+		if len(n) != len(ns) || len(n) != len(k) {
+			return nil, false
+		}
+		for i := range n {
+			v.ids = append(v.ids, c10IdT{g, ver, k[i], n[i], ns[i]})
+		}
+	}
+	return v, true
+}
+
+func c10Views(objs []c10Obj) ([]*c10View, bool) {
+	out := []*c10View{}
+	for _, o := range objs {
+		v, ok := c10ViewOf(o)
+		if !ok {
+			return nil, false
+		}
+		out = append(out, v)
+	}
+	return out, true
+}
+
+// effective namespace of an id that was not built by resid.NewGvk (previous ids, replacement ids, selectors)
+func c10EffNsPlain(ns string) string {
 	if ns == "" {
 		return "default"
 	}
 	return ns
 }
 
-// exact-equality selection (replacements, reject lists): empty selector fields are wildcards
-func c10IdSelected(id c10RId, s c10Id) bool {
-	if s.Group != "" && s.Group != id.group {
-		return false
-	}
-	if s.Version != "" && s.Version != id.version {
-		return false
-	}
-	if s.Kind != "" && s.Kind != id.kind {
-		return false
-	}
-	if s.Namespace != "" && c10EffNs(s.Kind, s.Namespace) != c10EffNs(id.kind, id.ns) {
-		return false
-	}
-	if s.Name != "" {
-		ok := false
-		for _, n := range id.names {
-			ok = ok || n == s.Name
+// exact-equality selection of ONE id (replacements, reject lists): empty selector fields are wildcards
+func c10OneIdSelected(id c10IdT, s c10Id) bool {
+	return (s.Group == "" || s.Group == id.group) && (s.Version == "" || s.Version == id.version) &&
+		(s.Kind == "" || s.Kind == id.kind) && (s.Name == "" || s.Name == id.name) &&
+		(s.Namespace == "" || c10EffNsPlain(s.Namespace) == c10EffNsPlain(id.ns))
+}
+
+// some id (current or previous) of the resource is selected
+func c10IdSelected(v *c10View, s c10Id) bool {
+	for _, id := range v.ids {
+		if c10OneIdSelected(id, s) {
+			return true
 		}
-		return ok
 	}
-	return true
+	return false
 }
 
 // simple label selector evaluation (k=v, k==v, k!=v, k, !k, comma = and)
@@ -281,11 +345,27 @@ func (m c10Mode) class() string {
 }
 
 type c10Pred struct {
-	objs    []c10Obj // expected objects, index-aligned with t.Res
-	err     bool     // the build is expected to fail
-	unknown bool     // outside the oracle's domain: no verdict
+	objs    []c10Obj   // expected objects, index-aligned with the input
+	views   []*c10View // the same objects with their ids
+	err     bool       // the operation is expected to fail
+	unknown bool       // outside the oracle's domain: no verdict
 	notes   []string
 }
+
+// c10Spec: the directives of one build / one micro case
+type c10Spec struct {
+	Images   []c10Image
+	Replicas []c10ReplicaEntry
+	Repls    []c10Repl
+	Patch    *c10Sel
+}
+
+func (t c10Tree) spec() c10Spec {
+	return c10Spec{Images: t.Images, Replicas: t.Replicas, Repls: t.Repls, Patch: t.Patch}
+}
+
+func (t c10Tree) outName(n string) string { return t.Prefix + n + t.Suffix }
+func (t c10Tree) renamed() bool           { return t.Prefix != "" || t.Suffix != "" }
 
 func (t c10Tree) inputObjs() ([]c10Obj, bool) {
 	out := []c10Obj{}
@@ -294,13 +374,28 @@ func (t c10Tree) inputObjs() ([]c10Obj, bool) {
 		if err := yaml.Unmarshal([]byte(r.yaml()), &o); err != nil {
 			return nil, false
 		}
-		if t.Prefix != "" {
+		if t.renamed() {
 			md, _ := o["metadata"].(map[string]interface{})
-			md["name"] = t.Prefix + r.Name
+			md["name"] = t.outName(r.Name)
 		}
 		out = append(out, o)
 	}
 	return out, true
+}
+
+// the views of a tree: the renaming base layer leaves the original id as a previous id
+func (t c10Tree) views(objs []c10Obj) ([]*c10View, bool) {
+	vs, ok := c10Views(objs)
+	if !ok {
+		return nil, false
+	}
+	if t.renamed() {
+		for i, v := range vs {
+			cur := v.ids[0]
+			v.ids = append(v.ids, c10IdT{cur.group, cur.version, cur.kind, t.Res[i].Name, c10EffNsPlain(cur.ns)})
+		}
+	}
+	return vs, true
 }
 
 // docker reference: name[:tag][@digest]; the tag colon is one after the last slash
@@ -374,10 +469,10 @@ func c10ImgMatch(mode c10Mode, entry, s string) bool {
 	return name == entry
 }
 
-func (t c10Tree) predictImages(p *c10Pred, mode c10Mode) {
-	for _, im := range t.Images {
-		for i, o := range p.objs {
-			if t.Res[i].Kind == "CustomResourceDefinition" {
+func (sp c10Spec) predictImages(p *c10Pred, mode c10Mode) {
+	for _, im := range sp.Images {
+		for _, o := range p.objs {
+			if c10Str(o, "kind") == "CustomResourceDefinition" {
 				continue
 			}
 			c10VisitImages(o, func(m map[string]interface{}) {
@@ -407,32 +502,39 @@ func (t c10Tree) predictImages(p *c10Pred, mode c10Mode) {
 
 var c10ReplicaKinds = map[string]bool{"Deployment": true, "ReplicationController": true, "ReplicaSet": true, "StatefulSet": true}
 
-func (t c10Tree) predictReplicas(p *c10Pred) {
-	for _, e := range t.Replicas {
+func (sp c10Spec) predictReplicas(p *c10Pred) {
+	for _, e := range sp.Replicas {
 		found := false
-		for i, o := range p.objs {
-			id := t.rid(t.Res[i])
-			if !c10ReplicaKinds[id.kind] {
-				continue
-			}
-			hit := false
-			for _, n := range id.names {
-				hit = hit || n == e.Name
-			}
-			if !hit {
-				continue
-			}
-			found = true
-			spec, ok := o["spec"].(map[string]interface{})
-			if !ok {
-				if o["spec"] != nil {
+		for _, v := range p.views {
+			o := v.obj
+			for kind := range c10ReplicaKinds {
+				hit := false
+				for _, id := range v.ids {
+					hit = hit || (id.name == e.Name && id.kind == kind)
+				}
+				if !hit {
+					continue
+				}
+				found = true
+				if v.ids[0].kind != kind {
+					continue // matched through a previous kind: the field spec does not apply to the object as it is now
+				}
+				spec, ok := o["spec"].(map[string]interface{})
+				if !ok {
+					if o["spec"] != nil {
+						p.unknown = true
+						return
+					}
+					spec = map[string]interface{}{}
+					o["spec"] = spec
+				}
+				switch spec["replicas"].(type) {
+				case map[string]interface{}, []interface{}:
 					p.unknown = true
 					return
 				}
-				spec = map[string]interface{}{}
-				o["spec"] = spec
+				spec["replicas"] = float64(e.Count)
 			}
-			spec["replicas"] = float64(e.Count)
 		}
 		if !found {
 			p.err = true
@@ -466,7 +568,7 @@ func (s c10Slot) set(v interface{}) {
 
 // c10Resolve returns the slots, or ok=false when the path does not exist (and is not created), or
 // unknown=true for shapes the oracle does not cover.
-func c10Resolve(root c10Obj, parts []string, create bool, regexKeys bool) (slots []c10Slot, ok bool, unknown bool) {
+func c10Resolve(root c10Obj, parts []string, create bool, regexKeys bool, firstOnly bool) (slots []c10Slot, ok bool, unknown bool) {
 	type frame struct{ slot c10Slot }
 	cur := []c10Slot{{m: map[string]interface{}{"": root}, key: ""}}
 	for pi, part := range parts {
@@ -500,6 +602,9 @@ func c10Resolve(root c10Obj, parts []string, create bool, regexKeys bool) (slots
 					if hit {
 						next = append(next, c10Slot{l: l, idx: i})
 						n++
+						if firstOnly { // yaml.Lookup (the source side) takes the first entry that equals
+							break
+						}
 					}
 				}
 				if n == 0 {
@@ -588,8 +693,13 @@ func c10Text(v interface{}) (string, bool) {
 	return "", false
 }
 
-func (t c10Tree) predictRepls(p *c10Pred, mode c10Mode) {
-	for _, rp := range t.Repls {
+func (sp c10Spec) predictRepls(p *c10Pred, mode c10Mode) {
+	metaDirty := false
+	for _, rp := range sp.Repls {
+		if metaDirty {
+			p.unknown = true
+			return
+		}
 		if rp.Source == nil || rp.SourceValue != nil || rp.NilTargets {
 			p.unknown = true
 			return
@@ -597,9 +707,9 @@ func (t c10Tree) predictRepls(p *c10Pred, mode c10Mode) {
 		// source: exactly one resource
 		var src c10Obj
 		n := 0
-		for i, o := range p.objs {
-			if c10IdSelected(t.rid(t.Res[i]), rp.Source.c10Id) {
-				src = o
+		for _, v := range p.views {
+			if c10IdSelected(v, rp.Source.c10Id) {
+				src = v.obj
 				n++
 			}
 		}
@@ -617,7 +727,7 @@ func (t c10Tree) predictRepls(p *c10Pred, mode c10Mode) {
 			return
 		}
 		// the source side selects a list entry by equality and takes the first one
-		slots, found, unk := c10Resolve(src, parts, false, false)
+		slots, found, unk := c10Resolve(src, parts, false, false, true)
 		if unk {
 			p.unknown = true
 			return
@@ -646,7 +756,25 @@ func (t c10Tree) predictRepls(p *c10Pred, mode c10Mode) {
 			}
 			val = pieces[o.Index]
 		}
+		if kyaml.IsValueNonString(val) {
+			p.unknown = true // the text would be re-typed by YAML (number, boolean, null): outside the text comparison
+			return
+		}
 		for _, tg := range rp.Targets {
+			if tg.Select != nil {
+				for _, x := range append([]c10Sel{*tg.Select}, tg.Reject...) {
+					if !c10SimpleLsel(x.Lab) || !c10SimpleLsel(x.Ann) {
+						p.unknown = true // selector text outside the oracle's grammar (possibly a parse error)
+						return
+					}
+				}
+			}
+		}
+		for _, tg := range rp.Targets {
+			if metaDirty {
+				p.unknown = true
+				return
+			}
 			if tg.Select == nil {
 				p.err = true
 				return
@@ -655,9 +783,9 @@ func (t c10Tree) predictRepls(p *c10Pred, mode c10Mode) {
 			if len(fps) == 0 {
 				fps = []string{"metadata.name"}
 			}
-			for i, o := range p.objs {
-				id := t.rid(t.Res[i])
-				labels, annos := c10MapOf(t.Res[i].Labels), c10MapOf(t.Res[i].Annos)
+			for _, id := range p.views {
+				o := id.obj
+				labels, annos := id.labels, id.annos
 				if !c10IdSelected(id, tg.Select.c10Id) {
 					continue
 				}
@@ -696,12 +824,11 @@ func (t c10Tree) predictRepls(p *c10Pred, mode c10Mode) {
 						p.unknown = true
 						return
 					}
-					if len(parts) >= 2 && parts[0] == "metadata" && (parts[1] == "name" || parts[1] == "labels" || parts[1] == "annotations") && len(t.Repls) > 1 {
-						p.unknown = true // later replacements would select on rewritten metadata
-						return
+					if len(parts) >= 2 && parts[0] == "metadata" && (parts[1] == "name" || parts[1] == "namespace" || parts[1] == "labels" || parts[1] == "annotations") {
+						metaDirty = true // a later target selector / replacement would select on rewritten metadata
 					}
 					create := tg.Options != nil && tg.Options.Create
-					slots, found, unk := c10Resolve(o, parts, create, mode.ListKeyRegex)
+					slots, found, unk := c10Resolve(o, parts, create, mode.ListKeyRegex, false)
 					if unk {
 						p.unknown = true
 						return
@@ -732,7 +859,12 @@ func (t c10Tree) predictRepls(p *c10Pred, mode c10Mode) {
 							default:
 								tv[tg.Options.Index] = val
 							}
-							s.set(strings.Join(tv, tg.Options.Delimiter))
+							joined := strings.Join(tv, tg.Options.Delimiter)
+							if kyaml.IsValueNonString(joined) {
+								p.unknown = true
+								return
+							}
+							s.set(joined)
 						} else {
 							if _, isScalar := c10Text(old); !isScalar && old != nil {
 								p.unknown = true
@@ -758,44 +890,88 @@ func c10FullMatch(pat, s string) (bool, bool) {
 	return re.MatchString(s), true
 }
 
-func (t c10Tree) predictPatch(p *c10Pred) {
-	s := t.Patch
+// is this gvk cluster scoped for an id built by resid.NewGvk (the current id of a resource)
+func c10IdClusterScoped(id c10IdT) bool {
+	return resid.NewGvk(id.group, id.version, id.kind).IsClusterScoped()
+}
+
+// c10SelectKeeps: the specification of a patch target selector for one resource: every non-empty
+// pattern matches the WHOLE text; namespace and name are tried on the original and on the current id.
+func c10SelectKeeps(v *c10View, s c10Sel) (keep bool, ok bool) {
+	cur := v.ids[0]
+	org := cur
+	if len(v.ids) > 1 {
+		org = v.ids[1]
+	}
+	curNs := c10EffNsPlain(cur.ns)
+	if c10IdClusterScoped(cur) {
+		curNs = "_non_namespaceable_"
+	}
+	orgNs := curNs
+	if len(v.ids) > 1 {
+		orgNs = c10EffNsPlain(org.ns)
+	}
+	m := func(pat, subj string) bool { r, _ := c10FullMatch(pat, subj); return r }
+	if !(m(s.Group, cur.group) && m(s.Version, cur.version) && m(s.Kind, cur.kind)) {
+		return false, true
+	}
+	if !(m(s.Namespace, orgNs) || m(s.Namespace, curNs)) || !(m(s.Name, org.name) || m(s.Name, cur.name)) {
+		return false, true
+	}
+	lm, ok1 := c10LabelMatch(s.Lab, v.labels)
+	if !ok1 {
+		return false, false
+	}
+	if !lm {
+		return false, true
+	}
+	am, ok2 := c10LabelMatch(s.Ann, v.annos)
+	if !ok2 {
+		return false, false
+	}
+	return am, true
+}
+
+func (sp c10Spec) predictPatch(p *c10Pred) {
+	s := sp.Patch
 	for _, pat := range []string{s.Group, s.Version, s.Kind, s.Name, s.Namespace} {
 		if _, ok := c10FullMatch(pat, ""); !ok {
 			p.err = true
 			return
 		}
 	}
-	for i, o := range p.objs {
-		id := t.rid(t.Res[i])
-		g, _ := c10FullMatch(s.Group, id.group)
-		v, _ := c10FullMatch(s.Version, id.version)
-		k, _ := c10FullMatch(s.Kind, id.kind)
-		ns, _ := c10FullMatch(s.Namespace, c10EffNs(id.kind, id.ns))
-		nm := false
-		for _, n := range id.names {
-			m, _ := c10FullMatch(s.Name, n)
-			nm = nm || m
-		}
-		if !(g && v && k && ns && nm) {
-			continue
-		}
-		lm, ok1 := c10LabelMatch(s.Lab, c10MapOf(t.Res[i].Labels))
-		am, ok2 := c10LabelMatch(s.Ann, c10MapOf(t.Res[i].Annos))
-		if !ok1 || !ok2 {
+	for _, v := range p.views {
+		keep, ok := c10SelectKeeps(v, *s)
+		if !ok {
 			p.err = true
 			return
 		}
-		if !lm || !am {
+		if !keep {
 			continue
 		}
-		md := o["metadata"].(map[string]interface{})
+		md := v.obj["metadata"].(map[string]interface{})
 		an, ok := md["annotations"].(map[string]interface{})
 		if !ok {
 			an = map[string]interface{}{}
 			md["annotations"] = an
 		}
 		an["patched"] = "yes"
+	}
+}
+
+// predictOn applies the directives to the views (kustomize's order: patches, replicas, images, replacements)
+func (sp c10Spec) predictOn(p *c10Pred, mode c10Mode) {
+	if sp.Patch != nil {
+		sp.predictPatch(p)
+	}
+	if !p.err && !p.unknown && len(sp.Replicas) > 0 {
+		sp.predictReplicas(p)
+	}
+	if !p.err && !p.unknown && len(sp.Images) > 0 {
+		sp.predictImages(p, mode)
+	}
+	if !p.err && !p.unknown && len(sp.Repls) > 0 {
+		sp.predictRepls(p, mode)
 	}
 }
 
@@ -807,19 +983,11 @@ func (t c10Tree) predict(mode c10Mode) c10Pred {
 		return p
 	}
 	p.objs = objs
-	// kustomize's order of the builtin transformers: patches, ..., replicas, images, replacements (last)
-	if t.Patch != nil {
-		t.predictPatch(&p)
+	if p.views, ok = t.views(objs); !ok {
+		p.unknown = true
+		return p
 	}
-	if !p.err && !p.unknown && len(t.Replicas) > 0 {
-		t.predictReplicas(&p)
-	}
-	if !p.err && !p.unknown && len(t.Images) > 0 {
-		t.predictImages(&p, mode)
-	}
-	if !p.err && !p.unknown && len(t.Repls) > 0 {
-		t.predictRepls(&p, mode)
-	}
+	t.spec().predictOn(&p, mode)
 	return p
 }
 
@@ -902,7 +1070,8 @@ func (t c10Tree) classify(cls string, out string) string {
 		}
 		return "C10/build-does-not-return"
 	}
-	modes := []c10Mode{{ImgRegex: true}, {ImgTwice: true}, {ImgRegex: true, ImgTwice: true}, {ListKeyRegex: true}, {SourceAlias: true}}
+	undecided := false
+	modes := []c10Mode{{ImgRegex: true}, {ImgTwice: true}, {ImgRegex: true, ImgTwice: true}, {ListKeyRegex: true}, {SourceAlias: true}, {ListKeyRegex: true, SourceAlias: true}}
 	for _, m := range modes {
 		if (m.ImgRegex || m.ImgTwice) && len(t.Images) == 0 {
 			continue
@@ -912,6 +1081,7 @@ func (t c10Tree) classify(cls string, out string) string {
 		}
 		p := t.predict(m)
 		if p.unknown {
+			undecided = true
 			continue
 		}
 		if cls == ClsErr {
@@ -927,6 +1097,9 @@ func (t c10Tree) classify(cls string, out string) string {
 			return m.class()
 		}
 	}
+	if undecided {
+		return "" // a listed defect may explain it, but its emulation is outside the oracle's domain: no verdict
+	}
 	return "C10/modified-set-differs"
 }
 
@@ -936,16 +1109,18 @@ var c10OracleImages = []string{"x", "x:1", "x-1:1", "ax:2", "x.y:3", "xzy:1", "x
 	"x:1@sha256:abc", "docker.io/lib/x:1", "x.y", "y:1", "app:v1", "reg/x.y:1", "reg/xzy:1"}
 var c10OracleEntryNames = []string{"x", "x", "x-1", "ax", "x.y", "xzy", "reg:5000/x", "docker.io/lib/x", "y", "app", "reg/x.y", "x"}
 
-func c10GenOracleRes(r *Rng) c10Res {
+var c10WebNames = []string{"web", "api", "web-canary", "internal-api", "webapi", "api-web", "web"}
+
+func c10GenOracleRes(r *Rng, names []string) c10Res {
 	kinds := [][2]string{{"apps/v1", "Deployment"}, {"apps/v1", "StatefulSet"}, {"v1", "Pod"}, {"v1", "ConfigMap"}, {"batch/v1", "CronJob"}, {"example.com/v1", "MyKind"}, {"apps/v1", "ReplicaSet"}, {"apps/v1", "DaemonSet"}}
 	k := kinds[r.Intn(len(kinds))]
-	res := c10Res{APIVersion: k[0], Kind: k[1], Name: c10PickN(r, c10Names), Namespace: c10PickN(r, []string{"", "", "ns", "ns-1"})}
+	res := c10Res{APIVersion: k[0], Kind: k[1], Name: c10PickN(r, names), Namespace: c10PickN(r, []string{"", "", "ns", "ns-1"})}
 	res.Labels = append(res.Labels, [2]string{"app", c10PickN(r, c10LabelVals)})
 	if r.Chance(50) {
 		res.Labels = append(res.Labels, [2]string{"tier", c10PickN(r, c10LabelVals)})
 	}
-	if r.Chance(30) {
-		res.Annos = append(res.Annos, [2]string{"note", c10PickN(r, []string{"a:b:c", "nn", "x/y/z"})})
+	if r.Chance(60) {
+		res.Annos = append(res.Annos, [2]string{"note", c10PickN(r, []string{"a:b:c", "nn", "x/y/z", "eu-web"})})
 	}
 	if res.contPath() != "none" {
 		used := map[string]bool{}
@@ -972,8 +1147,13 @@ func c10GenTree(r *Rng) c10Tree {
 	t := c10Tree{}
 	seen := map[string]bool{}
 	n := 2 + r.Intn(5)
+	names := c10Names
+	webFam := r.Chance(35)
+	if webFam {
+		names = c10WebNames
+	}
 	for tries := 0; len(t.Res) < n && tries < 40; tries++ {
-		x := c10GenOracleRes(r)
+		x := c10GenOracleRes(r, names)
 		key := x.Kind + "|" + x.Name + "|" + x.Namespace
 		if seen[key] {
 			continue
@@ -981,11 +1161,23 @@ func c10GenTree(r *Rng) c10Tree {
 		seen[key] = true
 		t.Res = append(t.Res, x)
 	}
-	if r.Chance(30) {
-		t.Prefix = "p-"
+	directive := r.Intn(10)
+	renameChance := 30
+	if directive >= 5 && directive <= 7 {
+		renameChance = 55 // replacements above a renaming base: target resources with several ids
+	}
+	if r.Chance(renameChance) {
+		switch r.Intn(4) {
+		case 0:
+			t.Suffix = "-s"
+		case 1:
+			t.Prefix, t.Suffix = "p-", "-s"
+		default:
+			t.Prefix = "p-"
+		}
 	}
 	pick := func() c10Res { return t.Res[r.Intn(len(t.Res))] }
-	switch r.Intn(10) {
+	switch directive {
 	case 0, 1, 2: // images
 		for i := 1 + r.Intn(2); i > 0; i-- {
 			im := c10Image{Name: c10PickN(r, c10OracleEntryNames)}
@@ -1009,8 +1201,8 @@ func c10GenTree(r *Rng) c10Tree {
 		name := c10PickN(r, c10Names)
 		if r.Chance(70) {
 			name = pick().Name
-			if t.Prefix != "" && r.Chance(50) {
-				name = t.Prefix + name
+			if t.renamed() && r.Chance(50) {
+				name = t.outName(name)
 			}
 		}
 		t.Replicas = append(t.Replicas, c10ReplicaEntry{Name: name, Count: int64(3 + r.Intn(5))})
@@ -1027,13 +1219,16 @@ func c10GenTree(r *Rng) c10Tree {
 		tg := c10Target{}
 		tp := pick()
 		sel := c10Sel{}
-		if r.Chance(70) {
+		if r.Chance(80) {
 			sel.Kind = tp.Kind
 		}
-		if r.Chance(50) {
+		if r.Chance(35) {
 			sel.Name = tp.Name
+			if t.renamed() && r.Chance(50) {
+				sel.Name = t.outName(tp.Name)
+			}
 		}
-		if r.Chance(20) {
+		if r.Chance(15) {
 			sel.Lab = c10PickN(r, []string{"app=x", "app!=x", "tier"})
 		}
 		tg.Select = &sel
@@ -1051,8 +1246,16 @@ func c10GenTree(r *Rng) c10Tree {
 		default:
 			tg.FieldPaths = []string{"metadata.labels.app"}
 		}
-		if tg.Options == nil && r.Chance(25) {
-			tg.Options = &c10Opts{Delimiter: ":", Index: r.Intn(3) - 1}
+		if tg.Options == nil && r.Chance(50) {
+			// non-idempotent writes: prefix (index -1) / append (index >= number of parts) / replace a part
+			delim := ":"
+			switch {
+			case strings.HasSuffix(tg.FieldPaths[0], ".image"):
+				delim = c10PickN(r, []string{":", ":", "/"})
+			case tg.FieldPaths[0] == "metadata.labels.app":
+				delim = "-"
+			}
+			tg.Options = &c10Opts{Delimiter: delim, Index: c10PickInt(r, []int{-1, -1, -1, 0, 1, 2, 3, 7})}
 		}
 		if tg.Options == nil && r.Chance(15) {
 			tg.Options = &c10Opts{Create: true}
@@ -1063,16 +1266,75 @@ func c10GenTree(r *Rng) c10Tree {
 				FieldPaths: []string{rp.Source.FieldPath, "metadata.labels.app"},
 				Options:    &c10Opts{Delimiter: "/", Index: 1 + r.Intn(2)}}
 		}
+		if t.renamed() && r.Chance(60) {
+			// a target resource with several ids (renamed in the base), selected through more than one of
+			// them (kind only / group+version / everything), written non-idempotently: once per resource
+			sel := c10Sel{}
+			switch r.Intn(4) {
+			case 0, 1:
+				sel.Kind = tp.Kind
+			case 2:
+				g, v := c10SplitAV(tp.APIVersion)
+				sel.Group, sel.Version = g, v
+			}
+			tg = c10Target{Select: &sel}
+			idx := c10PickInt(r, []int{-1, -1, 5, 9})
+			switch r.Intn(4) {
+			case 0:
+				tg.FieldPaths = []string{"metadata.labels.app"}
+				tg.Options = &c10Opts{Delimiter: "-", Index: idx}
+			case 1:
+				tg.FieldPaths = []string{"metadata.annotations.copied"}
+				tg.Options = &c10Opts{Delimiter: c10PickN(r, []string{"-", ":", "/"}), Index: idx, Create: true}
+			default:
+				// a list element: keep tp the only resource of its kind so that the path exists in every target
+				if len(tp.Conts) > 0 {
+					kept := []c10Res{}
+					for _, x := range t.Res {
+						if x.Kind != tp.Kind || (x.Name == tp.Name && x.Namespace == tp.Namespace) {
+							kept = append(kept, x)
+						}
+					}
+					t.Res = kept
+					sel = c10Sel{c10Id: c10Id{Kind: tp.Kind}}
+					tg.Select = &sel
+					tg.FieldPaths = []string{cpath + ".[name=" + tp.Conts[0].Name + "].image"}
+					tg.Options = &c10Opts{Delimiter: c10PickN(r, []string{":", "/"}), Index: idx}
+				} else {
+					tg.FieldPaths = []string{"metadata.labels.app"}
+					tg.Options = &c10Opts{Delimiter: "-", Index: idx}
+				}
+			}
+			// the source must still exist and be unique
+			stillThere := false
+			for _, x := range t.Res {
+				if x.Kind == src.Kind && x.Name == src.Name && x.Namespace == src.Namespace {
+					stillThere = true
+				}
+			}
+			if !stillThere {
+				src = tp
+				rp.Source = &c10Source{c10Id: c10Id{Kind: src.Kind, Name: src.Name, Namespace: src.Namespace}, FieldPath: "metadata.name"}
+			}
+			if rp.Source.FieldPath == "metadata.labels.app" {
+				rp.Source.FieldPath = "metadata.name" // do not alias the field that is written
+			}
+		}
 		rp.Targets = []c10Target{tg}
 		t.Repls = []c10Repl{rp}
 	default: // patch with a target selector
 		s := c10Sel{}
 		tp := pick()
 		if r.Chance(70) {
-			s.Name = c10PickN(r, []string{tp.Name, "x", "x.*", "x|ax", "x-1", ".*", "x.y", "[a-z]+", "p-x", "p-.*", "x$", "^x"})
+			other := pick()
+			if webFam {
+				s.Name = c10PickN(r, []string{"web|api", "api|web", "web|api|webapi", "web-canary|api", tp.Name + "|" + other.Name, "web", "api", "web.*", ".*api", "p-web|p-api", "web|api-s"})
+			} else {
+				s.Name = c10PickN(r, []string{tp.Name, "x", "x.*", "x|ax", "x-1", ".*", "x.y", "[a-z]+", "p-x", "p-.*", "x$", "^x", tp.Name + "|" + other.Name, "x|app", "ax|x-1"})
+			}
 		}
 		if r.Chance(50) {
-			s.Kind = c10PickN(r, []string{tp.Kind, "Deployment", "Deploy", ".*Set", "Pod|Deployment", "MyKind"})
+			s.Kind = c10PickN(r, []string{tp.Kind, "Deployment", "Deploy", ".*Set", "Pod|Deployment", "MyKind", "Pod|Job", "Set|Pod"})
 		}
 		if r.Chance(25) {
 			s.Namespace = c10PickN(r, []string{"ns", "ns-1", "default", "ns.*", "n"})
@@ -1138,6 +1400,9 @@ func c10CheckTree(run *Run, t c10Tree, out string, cls string, msg string) (viol
 		}
 		if !p.err {
 			class := t.classify(cls, out)
+			if class == "" {
+				return false, "no verdict"
+			}
 			if class == "C10/modified-set-differs" {
 				class = "C10/unexpected-build-error"
 			}
@@ -1148,6 +1413,9 @@ func c10CheckTree(run *Run, t c10Tree, out string, cls string, msg string) (viol
 	}
 	if p.err {
 		class := t.classify(cls, out)
+		if class == "" {
+			return false, "no verdict"
+		}
 		if class == "C10/modified-set-differs" {
 			class = "C10/missing-build-error"
 		}
@@ -1181,6 +1449,9 @@ func c10CheckTree(run *Run, t c10Tree, out string, cls string, msg string) (viol
 		return false, "modified set as predicted"
 	}
 	class := t.classify(cls, out)
+	if class == "" {
+		return false, "no verdict"
+	}
 	parts := []string{}
 	for i, d := range diffs {
 		if i >= 6 {
@@ -1258,6 +1529,41 @@ func c10StartOracle(rng *Rng, tier string) func(run *Run) error {
 	}
 }
 
+// c10ReplayMicro re-runs one micro case on the implementation and judges it against the property
+// (independent matcher); used for the cases on which model and implementation disagree.
+func c10ReplayMicro(c c10Case) (bool, string) {
+	run := NewRun("C10", "replay", 0, "", "")
+	imgFs, repFs := krusty.VerifC10DefaultFieldSpecs()
+	switch c.Kind {
+	case "match", "repl":
+		var j *c10Job
+		if c.Kind == "match" {
+			j = c10RunMatchJob(c)
+		} else {
+			j = &c10Job{req: c10ChildReq{Kind: "repl", Docs: c.Docs, Repls: c.Repls}}
+		}
+		if err := c10RunJobs([]*c10Job{j}, 1, 3*time.Second, 5*time.Second); err != nil {
+			return false, "child process: " + err.Error()
+		}
+		if c.Kind == "match" {
+			c10EmitMatch(run, c, j.resp)
+			if j.resp.Cls == ClsPanic {
+				return true, "PathMatcher panicked: " + j.resp.Msg
+			}
+		} else {
+			c10EmitRepl(run, c, j.resp)
+		}
+	default:
+		c10Exec1(run, c, imgFs, repFs)
+	}
+	b, _ := json.Marshal(c)
+	if len(run.Meta.Violations) > 0 {
+		v := run.Meta.Violations[0]
+		return true, fmt.Sprintf("case %s\nLAW %s class=%s: %s", string(b), v.Law, v.Class, v.Detail)
+	}
+	return false, fmt.Sprintf("case %s\nno law of the property is violated on this input (distribution %v)", string(b), run.Meta.Distribution)
+}
+
 func replayC10(path string) (bool, string, error) {
 	data, err := os.ReadFile(path)
 	if err != nil {
@@ -1268,6 +1574,17 @@ func replayC10(path string) (bool, string, error) {
 	}
 	if err := json.Unmarshal(data, &rp); err != nil {
 		return false, "", err
+	}
+	var probe struct {
+		Kind string `json:"kind"`
+	}
+	if json.Unmarshal(rp.Case, &probe) == nil && probe.Kind != "" {
+		var c c10Case
+		if err := json.Unmarshal(rp.Case, &c); err != nil {
+			return false, "", err
+		}
+		v, detail := c10ReplayMicro(c)
+		return v, detail, nil
 	}
 	var t c10Tree
 	if err := json.Unmarshal(rp.Case, &t); err != nil || len(t.Res) == 0 {
